@@ -661,8 +661,9 @@ class SymSeq:
 
     def split(self, sep=None, maxsplit=-1):
         T = type(self)
+        maxsplit = concretize(maxsplit)
         if sep is None:
-            return self.split_ws()
+            return self.split_ws(maxsplit)
         oc = seq_cells(sep, T)
         out = []
         cur = 0
@@ -679,16 +680,32 @@ class SymSeq:
             return c in (9, 10, 11, 12, 13, 32)
         return z3.Or(*[c == k for k in (9, 10, 11, 12, 13, 32)])
 
-    def split_ws(self):
+    def split_ws(self, maxsplit=-1):
         T = type(self)
         out, cur = [], []
-        for c in self.cells:
-            if T_truth(mkbool(self.is_ws(c)) if not isinstance(c, int) else self.is_ws(c)):
+        cells = self.cells
+        i, n = 0, len(cells)
+
+        def ws(c):
+            m = self.is_ws(c)
+            return T_truth(m if isinstance(m, bool) else mkbool(m))
+
+        while i < n:
+            if maxsplit >= 0 and len(out) >= maxsplit and not cur:
+                # remainder: leading whitespace skipped, everything else (trailing whitespace included) kept
+                while i < n and ws(cells[i]):
+                    i += 1
+                if i < n:
+                    out.append(T(cells[i:]))
+                return out
+            c = cells[i]
+            if ws(c):
                 if cur:
                     out.append(T(cur))
                     cur = []
             else:
                 cur.append(c)
+            i += 1
         if cur:
             out.append(T(cur))
         return out
